@@ -23,6 +23,7 @@ type pathElem struct {
 	structSort Sort
 	structT    *types.Struct
 	field      int
+	index      *Term // non-nil: an array element selection instead of a struct field
 }
 
 // Addr is an interior pointer tracked by the executor (never stored in the SMT heap).
@@ -328,6 +329,10 @@ func (ex *Exec) loadAddr(st *State, a *Addr) *Term {
 		}
 	}
 	for _, pe := range a.path {
+		if pe.index != nil {
+			v = Select(v, pe.index)
+			continue
+		}
 		f := pe.structT.Field(pe.field)
 		v = ex.vc.StructSel(pe.structSort, f.Name(), v, ex.vc.SortOf(f.Type()))
 	}
@@ -376,6 +381,9 @@ func (ex *Exec) updatePath(root *Term, path []pathElem, val *Term) *Term {
 		return val
 	}
 	pe := path[0]
+	if pe.index != nil {
+		return Store(root, pe.index, ex.updatePath(Select(root, pe.index), path[1:], val))
+	}
 	var fs []*Term
 	for i := 0; i < pe.structT.NumFields(); i++ {
 		f := pe.structT.Field(i)
